@@ -580,3 +580,70 @@ def rule_unpach_dispatch(ck, repo, R):
                   f'unpach routes headers {sorted(routed)} to the molecule decoder, which accepts {sorted(accepted)}: packs with header {sorted(accepted - routed)} '
                   f'(published earlier) are sent to the reaction decoder and rejected', file=f.file, line=f.lineno, func='unpach')
     ck.floor(R, 1)
+
+
+def rule_half_float_decoder(ck, repo, R):
+    """C10: coordinates are IEEE binary16. The decoder splits the two bytes into sign / 5-bit exponent field / 10-bit fraction; a non-zero exponent field means an implicit
+    leading 1 and bias 15, the field 0 means NO leading 1 and the fixed exponent -14 (sub-normals; the writer encodes them that way). Decided by following both paths of
+    the exponent test symbolically (the scale handed to ldexp as an affine form of the exponent field)"""
+    ck.rule(R, 'double_from_bytes: on the path where the exponent field is non-zero the fraction gets the implicit leading bit and ldexp is called with (field - 15); on the '
+               'path where it is zero there is no leading bit and ldexp is called with -14; bit extraction (sign = a >> 7, exponent = (a >> 2) & 31, fraction = ((a & 3) << 8) | b, '
+               'fraction / 1024) as published')
+    text = strip_comments(pyx_source(repo.root, UNPACK))
+    m = re.search(r'cdef double double_from_bytes\(unsigned char a, unsigned char b\):\n((?:    .*\n|\n)+)', text)
+    ck.require(m is not None, '_unpack_v0v2.pyx: double_from_bytes not found')
+    body = '\n'.join(l[4:] for l in m.group(1).splitlines() if not l.strip().startswith('cdef '))
+    try:
+        tree = ast.parse(body)
+    except SyntaxError as e:
+        raise AnalysisError(f'double_from_bytes: body is not plain statements ({e})')
+    flat = ' '.join(src(tree).split())
+    ck.decide('sign = a >> 7' in flat and 'e = a >> 2 & 31' in flat and 'f = (a & 3) << 8 | b' in flat and ('x = f / 1024.0' in flat or 'x = f / 1024' in flat), R, 'bit-extraction', None,
+              'double_from_bytes no longer extracts sign / exponent / fraction as the binary16 layout defines', file=UNPACK)
+
+    def aff(e, env):
+        if isinstance(e, ast.Constant) and isinstance(e.value, (int, float)):
+            return (0, e.value)
+        if isinstance(e, ast.Name):
+            if e.id in env:
+                return env[e.id]
+            raise AnalysisError(f'double_from_bytes: `{e.id}` in the scale is not understood')
+        if isinstance(e, ast.UnaryOp) and isinstance(e.op, ast.USub):
+            a_ = aff(e.operand, env)
+            return (-a_[0], -a_[1])
+        if isinstance(e, ast.BinOp) and isinstance(e.op, (ast.Add, ast.Sub)):
+            l, r = aff(e.left, env), aff(e.right, env)
+            sgn = 1 if isinstance(e.op, ast.Add) else -1
+            return (l[0] + sgn * r[0], l[1] + sgn * r[1])
+        raise AnalysisError(f'double_from_bytes: scale expression `{src(e)}` not understood')
+    results = []
+
+    def run(stmts, env, lead, nonzero):
+        for i, st in enumerate(stmts):
+            if isinstance(st, ast.If) and src(st.test) in ('e', 'e != 0', 'e > 0'):
+                run(list(st.body) + stmts[i + 1:], dict(env), lead, True)
+                run(list(st.orelse) + stmts[i + 1:], dict(env), lead, False)
+                return
+            if isinstance(st, ast.If) and src(st.test) in ('not e', 'e == 0'):
+                run(list(st.body) + stmts[i + 1:], dict(env), lead, False)
+                run(list(st.orelse) + stmts[i + 1:], dict(env), lead, True)
+                return
+            if isinstance(st, ast.AugAssign) and src(st.target) == 'x' and isinstance(st.op, ast.Add) and isinstance(st.value, ast.Constant) and st.value.value == 1:
+                lead = True
+            elif isinstance(st, ast.AugAssign) and src(st.target) == 'e' and isinstance(st.op, (ast.Add, ast.Sub)):
+                d = aff(st.value, env)
+                sgn = 1 if isinstance(st.op, ast.Add) else -1
+                env['e'] = (env['e'][0] + sgn * d[0], env['e'][1] + sgn * d[1])
+            elif isinstance(st, ast.Assign) and src(st.targets[0]) == 'e' and nonzero is not None:
+                env['e'] = aff(st.value, env)
+            elif isinstance(st, ast.Assign) and src(st.targets[0]) == 'x' and isinstance(st.value, ast.Call) and src(st.value.func) == 'ldexp':
+                results.append((nonzero, lead, aff(st.value.args[1], env)))
+                return
+    start = [i for i, st in enumerate(tree.body) if isinstance(st, ast.Assign) and src(st.targets[0]) == 'x']
+    ck.require(start, 'double_from_bytes: fraction assignment not found')
+    run(tree.body[start[0] + 1:], {'e': (1, 0)}, False, None)
+    got = {nz: (lead, sc) for nz, lead, sc in results}
+    ok = got.get(True) == (True, (1, -15)) and (got.get(False) == (False, (0, -14)) or got.get(False) == (False, (1, -14)))
+    ck.decide(ok, R, 'exponent-paths', {str(k): v for k, v in got.items()},
+              f'double_from_bytes: (exponent field non-zero -> leading bit, scale) = {got.get(True)}, (zero -> ..) = {got.get(False)}; binary16 needs (True, field - 15) and (False, -14): '
+              f'sub-normal coordinates (|x| < 2**-14) are decoded at half their value while the writer still encodes them with exponent -14', file=UNPACK)
